@@ -33,7 +33,11 @@ static void mul_width(const std::string& routine, const JVal& in, JVal& out, int
     memset(&r, 0xA5, sizeof r);
     if (affine) U(in["base"], abase); else U(in["base"], base);
     P* d = (alias == 1 && !affine) ? &base : &r;
-    if (routine == "wnaf") { if (affine) d->template multiply_wnaf<A, BigInt<bits>>(abase, k); else d->template multiply_wnaf<P, BigInt<bits>>(base, k); }
+    if (routine == "wnaf_s") {       // recoded scalar given by the caller
+        WnafScalar<bits, 4> s; s.from_bigint(k);
+        if (affine) d->template multiply_wnaf<A, bits, 4>(abase, s); else d->template multiply_wnaf<P, bits, 4>(base, s);
+    }
+    else if (routine == "wnaf") { if (affine) d->template multiply_wnaf<A, BigInt<bits>>(abase, k); else d->template multiply_wnaf<P, BigInt<bits>>(base, k); }
     else if (routine == "doubleadd") { if (affine) d->multiply_doubleadd(abase, k); else d->multiply_doubleadd(base, k); }
     else if (routine == "multiply") {    // the statically dispatched entry point for this width
         constexpr bool has = (Grp<P>::g == 1 && (bits == 256 || bits == 128)) || (Grp<P>::g == 2 && (bits == 256 || bits == 512));
@@ -59,10 +63,13 @@ static void group_op(const std::string& op, const JVal& in, JVal& out) {
     memset(&r, 0xA5, sizeof r); memset(&ar, 0xA5, sizeof ar);
     if (op == "pt.add") {
         U(in["a"], a); U(in["b"], b);
-        P* d = alias == 1 ? &a : &r;
+        // alias: 1 result == a; through the C interface (no restrict qualifiers) also 2 result == b, 3 result == a == b
+        P* d = (alias == 1 || alias == 3) ? &a : (alias == 2 && capi) ? &b : &r;
+        P* pb = (alias == 3 && capi) ? &a : &b;
+        if (alias >= 2 && !capi) { out.set("skip", 1); return; }
         if (capi) {
-            if constexpr (Grp<P>::g == 1) embedded_pairing_bls12_381_g1_add((embedded_pairing_bls12_381_g1_t*) d, (embedded_pairing_bls12_381_g1_t*) &a, (embedded_pairing_bls12_381_g1_t*) &b);
-            else embedded_pairing_bls12_381_g2_add((embedded_pairing_bls12_381_g2_t*) d, (embedded_pairing_bls12_381_g2_t*) &a, (embedded_pairing_bls12_381_g2_t*) &b);
+            if constexpr (Grp<P>::g == 1) embedded_pairing_bls12_381_g1_add((embedded_pairing_bls12_381_g1_t*) d, (embedded_pairing_bls12_381_g1_t*) &a, (embedded_pairing_bls12_381_g1_t*) pb);
+            else embedded_pairing_bls12_381_g2_add((embedded_pairing_bls12_381_g2_t*) d, (embedded_pairing_bls12_381_g2_t*) &a, (embedded_pairing_bls12_381_g2_t*) pb);
         } else d->add(a, b);
         out.set("r", J(*d));
     } else if (op == "pt.add_mixed") {
@@ -127,6 +134,50 @@ static void group_op(const std::string& op, const JVal& in, JVal& out) {
             else embedded_pairing_bls12_381_g2affine_from_projective((embedded_pairing_bls12_381_g2affine_t*) &ar, (embedded_pairing_bls12_381_g2_t*) &a);
         } else ar.from_projective(a);
         out.set("r", J(ar));
+    } else if (op == "pt.set") {
+        U(in["a"], a);
+        P* d = alias == 1 ? &a : &r;
+        d->set(a); out.set("r", J(*d));
+    } else if (op == "pt.acopy" || op == "pt.aset") {
+        U(in["a"], aa);
+        A* d = alias == 1 ? &aa : &ar;
+        if (op == "pt.acopy") d->copy(aa); else d->set(aa);
+        out.set("r", J(*d));
+    } else if (op == "mul.endo2") {
+        // G1::multiply_endomorphism with an explicit decomposition: [(+-)c0 + (+-)c1 * lambda] a
+        if constexpr (Grp<P>::g == 1) {
+            U(in["base"], a);
+            BigInt<256> c0, c1; U(in["c0"], c0); U(in["c1"], c1);
+            P* d = alias == 1 ? &a : &r;
+            d->multiply_endomorphism(a, c0, in.num("n0", 0) != 0, c1, in.num("n1", 0) != 0);
+            out.set("r", J(*d));
+        } else out.set("skip", 1);
+    } else if (op == "mul.powx") {
+        // G2::multiply_frobenius with a caller-supplied base-|x| decomposition
+        if constexpr (Grp<P>::g == 2) {
+            U(in["base"], a);
+            BigInt<256> k; U(in["k"], k);
+            PowersOfX sx; sx.decompose(k);
+            P* d = alias == 1 ? &a : &r;
+            d->multiply_frobenius(a, sx);
+            out.set("r", J(*d));
+        } else out.set("skip", 1);
+    } else if (op == "pt.copy") {
+        U(in["a"], a);
+        P* d = alias == 1 ? &a : &r;
+        d->copy(a); out.set("r", J(*d));
+    } else if (op == "pt.endo") {
+        if constexpr (Grp<P>::g == 1) {
+            U(in["a"], a);
+            P* d = alias == 1 ? &a : &r;
+            d->endomorphism(a); out.set("r", J(*d));
+        } else out.set("skip", 1);
+    } else if (op == "pt.frob") {
+        if constexpr (Grp<P>::g == 2) {
+            U(in["a"], a);
+            P* d = alias == 1 ? &a : &r;
+            d->frobenius_map(a, (unsigned) in["power"].i); out.set("r", J(*d));
+        } else out.set("skip", 1);
     } else if (op == "pt.is_zero") {
         U(in["a"], a);
         bool v = a.is_zero();
